@@ -10,7 +10,7 @@ REGISTRY = {
     'C06': {'gen': fwd.gen_C06},
     'C07': {'gen': grad.gen_C07},
     'C08': {'gen': grad.gen_C08, 'once': grad.exhaustive_flag_states},
-    'C09': {'gen': total.gen_C09, 'once': lambda tier: total.exhaustive_small_scope('quick' if tier == 'quick' else 'thorough')},
+    'C09': {'gen': total.gen_C09, 'once': lambda tier: total.exhaustive_small_scope('quick' if tier == 'quick' else 'thorough') + grad.exhaustive_backward(tier)},
     'C10': {'gen': total.gen_C10},
     'C11': {'gen': comp.gen_C11},
     'C12': {'gen': comp.gen_C12},
